@@ -53,13 +53,57 @@ def evaluate(m, obs, order=None):
     return out
 
 
+def _scoped_search(m, obs, queries):
+    atoms = list(m)
+    scope = set(atoms[:max(1, len(atoms) // 2)])
+    for q in queries:
+        list(q.get_mapping(m, searching_scope=scope, automorphism_filter=False))
+    list(m.get_mapping(m, searching_scope=scope))
+
+
+def _failed_txn(edit):
+    def run(m, obs, queries):
+        try:
+            with m:
+                edit(m)
+                evaluate(m, obs)  # derived values are read INSIDE the block that is going to fail
+                raise RuntimeError('abort')
+        except RuntimeError:
+            pass
+    return run
+
+
+def _del_first_bond(m):
+    n, k, _ = next(m.bonds())
+    m.delete_bond(n, k)
+
+
+def _add_ring_bond(m):
+    atoms = list(m)
+    for a in atoms:
+        for b in atoms:
+            if a < b and not m.has_bond(a, b) and len(m._bonds[a]) < 3 and len(m._bonds[b]) < 3:
+                m.add_bond(a, b, 1)
+                return
+    raise RuntimeError('abort')
+
+
+def _add_atom(m):
+    n = m.add_atom('O')
+    m.add_bond(n, next(iter(m)), 1)
+
+
 OPS = {
-    'canonicalize': lambda m: m.canonicalize(),
-    'standardize': lambda m: m.standardize(),
-    'kekule_thiele': lambda m: (m.kekule(), m.thiele()),
-    'explicify_implicify': lambda m: (m.explicify_hydrogens(), m.implicify_hydrogens()),
-    'neutralize': lambda m: m.neutralize(),
-    'clean_stereo_noop': lambda m: m.fix_stereo(),
+    'canonicalize': lambda m, o, q: m.canonicalize(),
+    'standardize': lambda m, o, q: m.standardize(),
+    'kekule_thiele': lambda m, o, q: (m.kekule(), m.thiele()),
+    'explicify_implicify': lambda m, o, q: (m.explicify_hydrogens(), m.implicify_hydrogens()),
+    'neutralize': lambda m, o, q: m.neutralize(),
+    'fix_stereo': lambda m, o, q: m.fix_stereo(),
+    'scoped_search': _scoped_search,
+    'failed_txn_delete_bond': _failed_txn(_del_first_bond),
+    'failed_txn_add_bond': _failed_txn(_add_ring_bond),
+    'failed_txn_add_atom': _failed_txn(_add_atom),
 }
 
 
@@ -101,12 +145,14 @@ def main():
                     m = smiles(s)
                     evaluate(m, obs, perm)  # prime every cache
                     try:
-                        op(m)
+                        op(m, obs, queries)
                     except Exception as e:
                         continue  # the operation rejecting this molecule is not C19's concern
                     a = evaluate(m, obs)
                     b = evaluate(m.copy(), obs)
                     rec['copy_differs'] += [f'{name}:{k}' for k in keys if a[k] != b[k]]
+                    if name.startswith(('failed_txn', 'scoped')):  # these must leave the molecule as it was
+                        rec['copy_differs'] += [f'{name}-vs-fresh:{k}' for k in keys if a[k] != base[k]]
                     if not (m == m.copy()):
                         rec['copy_differs'].append(f'{name}:eq_hash')
         except Exception as e:
